@@ -61,7 +61,12 @@ class Held:
         if bad:
             self.ctx.violation('C07:not-canonical', f'{what}: {bad[:3]}', M.case())
             return False
-        if M.s.last_result() == 'err:needs_reordering':
+        last = M.s.last_result()
+        M.op('assert_consistent')
+        if not M.s.ok():
+            self.ctx.violation('C07:not-canonical', f'{what}: BDD.assert_consistent() fails', M.case())
+            return False
+        if last == 'err:needs_reordering':
             self.ctx.violation('C07:signal', f'{what}: the internal reordering signal reached the caller', M.case())
             return False
         if self.dyn and b._last_len is None:
